@@ -41,6 +41,9 @@ record('userdataitems.GenericUserDataSubItem', item_type='int', reserved='int', 
 
 # ---- harness value types (no repository class): data sets the application oracle hands out
 record('harness.AppDataset', handle='int', SOPClassUID='str', SOPInstanceUID='str')
+# value view of asceprovider.PContextDef (a namedtuple) as an element of a symbolic sequence of
+# dictionary items: (id, sop_class, supported_ts in the set's iteration order)
+record('harness.CtxDef', id='int', sop_class='str', supported_ts='Seq[str]')
 
 family('VarItem', ['pdu.ApplicationContextItem', 'pdu.PresentationContextItemRQ',
                    'pdu.PresentationContextItemAC', 'pdu.UserInformationItem'])
